@@ -63,7 +63,7 @@ theorem cnt_bump {κ : Type} [DecidableEq κ] (k k' : κ) (l : List (κ × Nat))
       · exact ih
 
 theorem loop_laws (s : Bool) (m : M) (first : Bool) (atts : List Att) :
-    (loop s m first atts).1.retries = m.retries + closureRuns s atts - (if first then 1 else 0) ∧
+    (loop s m first atts).1.retries = m.retries + (closureRuns s atts - (if first then 1 else 0)) ∧
     (loop s m first atts).2 = succeeds s atts ∧
     (∀ c, cnt c (loop s m first atts).1.responses = cnt c m.responses + responsesOf s c atts) ∧
     (loop s m first atts).1.cmdAttempts = m.cmdAttempts ∧ (loop s m first atts).1.cmdFailures = m.cmdFailures ∧
@@ -95,6 +95,7 @@ theorem loop_laws (s : Bool) (m : M) (first : Bool) (atts : List Att) :
         obtain ⟨h1, h2, h3, h4⟩ := ih { m with retries := if first then m.retries else m.retries + 1 } false
         refine ⟨?_, h2, h3, h4⟩
         rw [h1]; cases first <;> simp <;> omega
+    | cancelled => cases first <;> simp [loop, closureRuns, succeeds, responsesOf]
 
 theorem command_laws (m : M) (name : String) (s b : Bool) (atts : List Att) :
     (∀ n, cnt n (command m name s b atts).cmdAttempts = cnt n m.cmdAttempts + (if name = n then 1 else 0)) ∧
@@ -107,10 +108,6 @@ theorem command_laws (m : M) (name : String) (s b : Bool) (atts : List Att) :
     (command m name s b atts).sessFailures = m.sessFailures ∧ (command m name s b atts).sessOpen = m.sessOpen := by
   unfold command
   obtain ⟨h1, h2, h3, h4, h5, h6, h7, h8, h9, h10, h11⟩ := loop_laws s { m with cmdAttempts := bump name m.cmdAttempts } true atts
-  have hruns : 1 ≤ closureRuns s atts := by
-    cases atts with
-    | nil => simp [closureRuns]
-    | cons a r => cases a <;> simp [closureRuns] <;> (try split) <;> omega
   simp only [] at h1 h2 h3 h4 h5 h6 h7 h8 h9 h10 h11 ⊢
   rw [h2]
   by_cases hok : (succeeds s atts && b) = true
